@@ -27,6 +27,13 @@ def zint_(v):
 
 def install(world):
     world.handlers[("BinFile", "write")] = file_write
+    prev_dict = world.builtins.get("dict")
+
+    def b_dict(ex, st, args, kwargs, node, spec):
+        if not args and not kwargs and getattr(ex.cx.c, "int_key_dicts", False):
+            return DictIntV(z3.K(I, z3.BoolVal(False)), fresh("emptydict.val", AII))
+        return prev_dict(ex, st, args, kwargs, node, spec)
+    world.builtins["dict"] = b_dict
 
 
 def ocw_spec(cx):
@@ -112,3 +119,16 @@ def wrote_everything(c):
 def extra_checks(res, tier, seed, known, log):
     from pyvc import runner
     runner.cli_grid(res, "C06", tier, seed, known, quick=16, thorough=150)
+
+
+@contract("runners.py", "OrderedChunkWriter.__init__", props=["C06"])
+def ordered_chunk_writer_init(c):
+    """the constructor establishes the representation invariant that write() preserves (nothing written, nothing waiting)"""
+    c.types(self=ObjT("OrderedChunkWriter"), outfile=ObjT("BinFile"))
+    c.modifies = ["self"]
+    c.int_key_dicts = True
+    c.spec(ocw_spec2)
+    c.requires(fresh_output_file="len(outfile.written) == 0")
+    c.ensures(invariant_established="self._current_index == 0 and written_len(self) == 0 and nothing_waiting(self)")
+    c.spec(lambda cx: cx.spec.update(nothing_waiting=lambda w: z3.ForAll([z3.Int("k!de")], z3.Not(w.fields["_chunks"].has[z3.Int("k!de")]))))
+    c.mutant("self._current_index = 0", "self._current_index = 1")
